@@ -3,6 +3,8 @@
 package engine
 
 import (
+	"encoding/base64"
+	"unicode/utf8"
 	"bufio"
 	"bytes"
 	"context"
@@ -205,6 +207,33 @@ type Case struct {
 	Tag any    `json:"-"` // caller's bookkeeping
 }
 
+// wireCase moves file contents that are not valid UTF-8 (JSON cannot carry them) to files_b64.
+func wireCase(c *Case) any {
+	bad := false
+	for _, v := range c.Files {
+		if !utf8.ValidString(v) {
+			bad = true
+		}
+	}
+	if !bad {
+		return c
+	}
+	type wire struct {
+		*Case
+		Files    map[string]string `json:"files,omitempty"`
+		FilesB64 map[string]string `json:"files_b64,omitempty"`
+	}
+	w := wire{Case: c, Files: map[string]string{}, FilesB64: map[string]string{}}
+	for k, v := range c.Files {
+		if utf8.ValidString(v) {
+			w.Files[k] = v
+		} else {
+			w.FilesB64[k] = base64.StdEncoding.EncodeToString([]byte(v))
+		}
+	}
+	return w
+}
+
 type Result struct {
 	ID         int    `json:"id"`
 	Exit       int    `json:"exit"`
@@ -362,7 +391,7 @@ func (w *worker) kill() {
 // exec1 runs one case on w; returns nil result if the worker died.
 func (p *Pool) exec1(w *worker, c *Case) (*Result, bool) {
 	c.Dir = p.caseDir(w, c.Cfg)
-	line, _ := json.Marshal(c)
+	line, _ := json.Marshal(wireCase(c))
 	line = append(line, '\n')
 	if _, err := w.stdin.Write(line); err != nil {
 		return nil, false
